@@ -19,6 +19,10 @@ def _suites():
 
 STYLES = None
 SUITES = _suites()
+# v1: Stop()/cancel between delivery and release -- the delivered slice must never be touched again
+SUITES.append(Suite("join1-stop", timed.join_stop_generate(), timed.project_join_stop, timed.monitor_join_stop,
+                    rule=timed.JOIN_RULE + "; v1 join with Stop() at a random instant (model run under every resolution of the selects after the stop)",
+                    version="v1", impl_ints=False, batch_timeout=120, variants=timed.join_stop_variants))
 ASSUMPTIONS = [
     "model: the discipline's goroutine as a program-counter machine (Join.jstep); channels, producer, consumer, ticker grid and fake clock "
     "are the deterministic environment of JoinSim.v, used only for the correspondence",
